@@ -232,8 +232,8 @@ Definition dst_of (x : Z) : dstk := if x =? 0 then DV4 else if x =? 1 then DV6 e
 Definition cmsg_line (L : layout) (c : cmsg) : list Z :=
   [c_level c; c_type c; cmsg_len L (zlen (c_data c))] ++ c_data c.
 
-(** op 0: [prepare_msg] *)
-Definition step_prepare (L : layout) (a : list Z) : list Z :=
+(** op 0: [prepare_msg]; [None] = [Encoder::push] ran out of buffer (its assertion panics) *)
+Definition step_prepare (L : layout) (a : list Z) : option (list Z) :=
   match a with
   | dst :: ecn :: clen :: seg :: einval :: _enc :: srck :: src =>
       let d := dst_of dst in
@@ -241,10 +241,11 @@ Definition step_prepare (L : layout) (a : list Z) : list Z :=
       let srco := if srck =? 4 then Some (firstn 4 src) else if srck =? 6 then Some (firstn 16 src) else None in
       let cs := prepare_cmsgs L d (ecn mod 4) (option_map Z.of_nat eff) srco (negb (einval =? 0)) in
       let cl := cmsgs_space L cs in
-      [cl; (if cl =? 0 then 1 else 0);
-       (if is_ipv4 d && negb (dst =? 2) then UDP_SOCKADDR_IN_SIZE else UDP_SOCKADDR_IN6_SIZE);
-       1; clen; zlen (map c_level cs)] ++ flat_map (cmsg_line L) cs
-  | _ => [-1]
+      if l_buf L <? cl then None else
+      Some ([cl; (if cl =? 0 then 1 else 0);
+             (if is_ipv4 d && negb (dst =? 2) then UDP_SOCKADDR_IN_SIZE else UDP_SOCKADDR_IN6_SIZE);
+             1; clen; zlen (map c_level cs)] ++ flat_map (cmsg_line L) cs)
+  | _ => Some [-1]
   end.
 
 (** op 1: items -> control messages as the hook encodes them *)
@@ -303,7 +304,7 @@ Definition step_decode (L : layout) (a : list Z) : option (list Z) :=
 
 Definition step (L : layout) (op : list Z) : option (list Z) :=
   match op with
-  | 0 :: a => Some (step_prepare L a)
+  | 0 :: a => step_prepare L a
   | 1 :: a => step_decode L a
   | [2; clen; seg] =>
       Some (match effective_segment_size (if 0 <? seg then Some (Z.to_nat seg) else None) (Z.to_nat clen) with
@@ -447,10 +448,15 @@ Fixpoint oracle_from (L : layout) (i : ops) (o : outs) : bool :=
   end.
 
 (** A case that panicked has no observations: the property (never out of buffer) fails unless
-    the case asked for more receive-side messages than any kernel delivers at once — the
-    generator only does that deliberately, through op 1 (which never happens in [prepare_msg]). *)
+    the panic is the one the case asked for — an op 1 that injects more receive-side messages
+    than the buffer holds (computed from the ops: the generator does that deliberately) — and no
+    [prepare_msg] of the case can be the culprit. *)
 Definition oracle (i : ops) (o : outs) : bool :=
   match o with
-  | [[-999]] => existsb (fun op => match op with 1 :: _ => true | _ => false end) i
+  | [[-999]] =>
+      forallb (fun op => match op with 0 :: a => match step_prepare gen_layout a with Some _ => true | None => false end
+                                  | _ => true end) i
+      && existsb (fun op => match op with 1 :: a => match step_decode gen_layout a with Some _ => false | None => true end
+                                     | _ => false end) i
   | _ => oracle_from gen_layout i o
   end.
